@@ -1,322 +1,45 @@
-//! Reproductions for two defects in `src/sync/rwlock.rs` (may 0.3.51).
-//!
-//! WHERE TO PUT IT: copy this file to `tests/repro_f23.rs` of the `may` crate
-//! (it is a plain integration test, it only uses the public API and std
-//! threads).
-//!
-//! HOW TO RUN:
-//!   cargo test --offline --test repro_f23 -- --test-threads=1 --nocapture
-//!   # optional knobs for the stress tests (B):
-//!   F23_STRESS_SECS=10 F23_STRESS_THREADS=16 cargo test --offline --test repro_f23 b_ -- --test-threads=1 --nocapture
-//!
-//! Property under test: "RwLock: either one writer or any number of readers,
-//! also when poisoned and guards are recovered from the PoisonError; every
-//! guard handed out -- inside Ok or inside a Poisoned error -- releases exactly
-//! what it acquired, so after all guards are dropped a try_write succeeds".
-//!
-//! (A) `a_*` tests: deterministic.  On the unfixed tree `try_read()` on a
-//!     poisoned lock hands out a guard that did not count itself in `rlock`;
-//!     dropping it underflows the reader count (debug: panic "attempt to
-//!     subtract with overflow"; release: count wraps) and the global lock that
-//!     was taken for it is never released -> `try_write()` is WouldBlock forever.
-//! (B) `b_*` tests: stress (racy).  On the unfixed tree the private
-//!     `RwLock::try_lock` reports `Poisoned` when it *lost* the CAS on a poisoned
-//!     lock, and all callers take that as "acquired" -> two writers (or a writer
-//!     and a reader) inside the critical section, and afterwards a corrupted
-//!     `cnt` (panic "got null blocker!" or a lock that is held by nobody).
-//!     The window is the few instructions between `cnt.load()` and
-//!     `cnt.compare_exchange()`; the tests run until the first violation or
-//!     until `F23_STRESS_SECS` (default 5) elapsed.
-
-use std::panic::{catch_unwind, AssertUnwindSafe};
-use std::sync::atomic::{AtomicBool, AtomicUsize, Ordering};
-use std::sync::{Arc, TryLockError};
-use std::thread;
-use std::time::{Duration, Instant};
-
+#[macro_use]
+extern crate may;
 use may::sync::RwLock;
+use std::sync::atomic::{AtomicBool, Ordering};
+use std::sync::mpsc::channel;
+use std::sync::Arc;
+use std::time::Duration;
 
-fn poisoned<T: Send + Sync + 'static>(v: T) -> Arc<RwLock<T>> {
-    let lock = Arc::new(RwLock::new(v));
-    let l2 = lock.clone();
-    let _ = thread::spawn(move || {
-        let _g = l2.write().unwrap();
-        panic!("poison the rwlock (expected panic)");
-    })
-    .join();
-    assert!(lock.is_poisoned());
-    lock
-}
-
-fn env_usize(name: &str, default: usize) -> usize {
-    std::env::var(name)
-        .ok()
-        .and_then(|s| s.parse().ok())
-        .unwrap_or(default)
-}
-
-// ---------------------------------------------------------------------------
-// (A) deterministic
-// ---------------------------------------------------------------------------
-
-/// The recipe from the defect description: recover the guard from the
-/// PoisonError of `try_read`, drop it, then the lock must be free again.
+// a coroutine with a pending cancel drops its read guard while the internal reader mutex is
+// contended: the guard must still give its read lock back
 #[test]
-fn a_try_read_poisoned_guard_releases_what_it_acquired() {
-    let lock = poisoned(1usize);
-
-    let guard = match lock.try_read() {
-        Err(TryLockError::Poisoned(e)) => e.into_inner(),
-        Ok(_) => panic!("poisoned lock must report Poisoned"),
-        Err(TryLockError::WouldBlock) => panic!("nobody holds the lock"),
-    };
-    assert_eq!(*guard, 1);
-
-    // debug build, unfixed: panics with "attempt to subtract with overflow"
-    let dropped = catch_unwind(AssertUnwindSafe(move || drop(guard)));
-
-    // unfixed (debug and release): WouldBlock forever although no guard exists
-    let free_again = match lock.try_write() {
-        Err(TryLockError::WouldBlock) => false,
-        Ok(_) | Err(TryLockError::Poisoned(_)) => true,
-    };
-
-    assert!(dropped.is_ok(), "dropping the recovered read guard panicked");
-    assert!(
-        free_again,
-        "try_write() is WouldBlock although every guard was dropped"
-    );
-    // and once more, to see that the try_write guard above was balanced too
-    assert!(!matches!(lock.try_write(), Err(TryLockError::WouldBlock)));
-    assert!(!matches!(lock.try_read(), Err(TryLockError::WouldBlock)));
-}
-
-/// A guard recovered from a poisoned `try_read` is a real read guard: other
-/// readers may join, writers are excluded until the last one is gone.
-#[test]
-fn a_try_read_poisoned_guards_are_shared_and_exclude_writers() {
-    let lock = poisoned(());
-
-    let g1 = match lock.try_read() {
-        Err(TryLockError::Poisoned(e)) => e.into_inner(),
-        _ => panic!("expected Poisoned"),
-    };
-    // unfixed: the first guard took the global lock but left the reader count
-    // at 0, so the second reader tries to take the global lock again.
-    let g2 = match lock.try_read() {
-        Err(TryLockError::Poisoned(e)) => e.into_inner(),
-        Err(TryLockError::WouldBlock) => {
-            // (unfixed tree: dropping g1 while unwinding would panic again
-            // and abort the whole test binary)
-            std::mem::forget(g1);
-            panic!("second reader was refused (WouldBlock)")
+fn read_guard_drop_with_pending_cancel_releases_the_lock() {
+    may::config().set_workers(2);
+    let lock = Arc::new(RwLock::new(0usize));
+    let (tx, rx) = channel();
+    let go_on = Arc::new(AtomicBool::new(false));
+    let (l2, g2) = (lock.clone(), go_on.clone());
+    let h = go!(move || {
+        let g = l2.read().unwrap();
+        tx.send(()).unwrap();
+        // no cancellation point in here: spin on the OS thread
+        while !g2.load(Ordering::Acquire) {
+            std::thread::yield_now();
         }
-        Ok(_) => panic!("expected Poisoned"),
-    };
-    // blocking read joins as well
-    let g3 = lock.read().unwrap_or_else(|e| e.into_inner());
-
-    assert!(matches!(lock.try_write(), Err(TryLockError::WouldBlock)));
-    drop(g1);
-    assert!(matches!(lock.try_write(), Err(TryLockError::WouldBlock)));
-    drop(g3);
-    assert!(matches!(lock.try_write(), Err(TryLockError::WouldBlock)));
-    drop(g2);
-    assert!(matches!(
-        lock.try_write(),
-        Err(TryLockError::Poisoned(_))
-    ));
-}
-
-/// `impl Debug for RwLock` goes through `try_read` and drops the PoisonError,
-/// so merely formatting a poisoned lock trips over the same defect.
-#[test]
-fn a_debug_fmt_of_poisoned_lock() {
-    let lock = poisoned(7u32);
-    let s = catch_unwind(AssertUnwindSafe(|| format!("{:?}", lock)));
-    let free_again = !matches!(lock.try_write(), Err(TryLockError::WouldBlock));
-    assert!(s.is_ok(), "format!(\"{{:?}}\", poisoned_lock) panicked");
-    assert!(s.unwrap().contains("Poisoned(7)"));
-    assert!(free_again, "Debug::fmt leaked the lock");
-}
-
-// ---------------------------------------------------------------------------
-// (B) stress
-// ---------------------------------------------------------------------------
-
-#[derive(Clone, Copy, PartialEq)]
-enum Role {
-    TryWrite,
-    TryRead,
-    Write,
-}
-
-struct Shared {
-    lock: Arc<RwLock<()>>,
-    writers: AtomicUsize,
-    readers: AtomicUsize,
-    violations: AtomicUsize,
-    entered: AtomicUsize,
-    stop: AtomicBool,
-}
-
-fn critical_write(s: &Shared) {
-    let w = s.writers.fetch_add(1, Ordering::SeqCst);
-    let r = s.readers.load(Ordering::SeqCst);
-    if w != 0 || r != 0 {
-        s.violations.fetch_add(1, Ordering::SeqCst);
-        s.stop.store(true, Ordering::SeqCst);
-    }
-    for _ in 0..20 {
-        std::hint::spin_loop();
-    }
-    s.writers.fetch_sub(1, Ordering::SeqCst);
-    s.entered.fetch_add(1, Ordering::Relaxed);
-}
-
-fn critical_read(s: &Shared) {
-    s.readers.fetch_add(1, Ordering::SeqCst);
-    if s.writers.load(Ordering::SeqCst) != 0 {
-        s.violations.fetch_add(1, Ordering::SeqCst);
-        s.stop.store(true, Ordering::SeqCst);
-    }
-    for _ in 0..20 {
-        std::hint::spin_loop();
-    }
-    s.readers.fetch_sub(1, Ordering::SeqCst);
-    s.entered.fetch_add(1, Ordering::Relaxed);
-}
-
-fn worker(s: &Shared, role: Role) {
-    while !s.stop.load(Ordering::Relaxed) {
-        match role {
-            Role::TryWrite => match s.lock.try_write() {
-                Ok(_g) => critical_write(s),
-                Err(TryLockError::Poisoned(e)) => {
-                    let _g = e.into_inner();
-                    critical_write(s)
-                }
-                Err(TryLockError::WouldBlock) => {}
-            },
-            Role::TryRead => match s.lock.try_read() {
-                Ok(_g) => critical_read(s),
-                Err(TryLockError::Poisoned(e)) => {
-                    let _g = e.into_inner();
-                    critical_read(s)
-                }
-                Err(TryLockError::WouldBlock) => {}
-            },
-            Role::Write => {
-                let _g = s.lock.write().unwrap_or_else(|e| e.into_inner());
-                critical_write(s)
-            }
-        }
-    }
-}
-
-/// returns (violations, panicked threads, hung threads, entered)
-fn stress(lock: Arc<RwLock<()>>, roles: &[Role]) -> (usize, usize, usize, usize) {
-    let secs = env_usize("F23_STRESS_SECS", 5) as u64;
-    let s = Arc::new(Shared {
-        lock,
-        writers: AtomicUsize::new(0),
-        readers: AtomicUsize::new(0),
-        violations: AtomicUsize::new(0),
-        entered: AtomicUsize::new(0),
-        stop: AtomicBool::new(false),
+        drop(g); // read_unlock: takes the reader mutex
+        // the pending cancel is delivered here at the latest
+        may::coroutine::sleep(Duration::from_secs(5));
     });
-    let done = Arc::new(AtomicUsize::new(0));
-    let panicked = Arc::new(AtomicUsize::new(0));
-    for &role in roles {
-        let s = s.clone();
-        let done = done.clone();
-        let panicked = panicked.clone();
-        // detached on purpose: on the unfixed tree a blocking writer can hang
-        thread::spawn(move || {
-            if catch_unwind(AssertUnwindSafe(|| worker(&s, role))).is_err() {
-                panicked.fetch_add(1, Ordering::SeqCst);
-                s.stop.store(true, Ordering::SeqCst);
-            }
-            done.fetch_add(1, Ordering::SeqCst);
-        });
+    rx.recv().unwrap();
+    // a thread reader that holds the reader mutex for 400ms (injected stall)
+    let l3 = lock.clone();
+    let t = std::thread::Builder::new().name("stall-rlock".into()).spawn(move || { let _g = l3.read().unwrap(); }).unwrap();
+    std::thread::sleep(Duration::from_millis(100));
+    unsafe { h.coroutine().cancel() }; // sets the cancel bit, the coroutine is running
+    go_on.store(true, Ordering::Release);
+    let _ = h.join();
+    t.join().unwrap();
+    // every guard is gone: the lock must be free
+    let mut ok = false;
+    for _ in 0..50 {
+        if lock.try_write().is_ok() { ok = true; break; }
+        std::thread::sleep(Duration::from_millis(20));
     }
-    let start = Instant::now();
-    while start.elapsed() < Duration::from_secs(secs) && !s.stop.load(Ordering::SeqCst) {
-        thread::sleep(Duration::from_millis(10));
-    }
-    s.stop.store(true, Ordering::SeqCst);
-    // give the workers 5s to leave; whoever is still there is parked forever
-    let grace = Instant::now();
-    while done.load(Ordering::SeqCst) < roles.len() && grace.elapsed() < Duration::from_secs(5) {
-        thread::sleep(Duration::from_millis(10));
-    }
-    let hung = roles.len() - done.load(Ordering::SeqCst);
-    let res = (
-        s.violations.load(Ordering::SeqCst),
-        panicked.load(Ordering::SeqCst),
-        hung,
-        s.entered.load(Ordering::SeqCst),
-    );
-    println!(
-        "stress: {:?} elapsed, critical sections entered = {}, exclusion violations = {}, \
-         panicked threads = {}, hung threads = {}",
-        start.elapsed(),
-        res.3,
-        res.0,
-        res.1,
-        res.2
-    );
-    res
-}
-
-fn check(lock: Arc<RwLock<()>>, roles: &[Role]) {
-    let (violations, panicked, hung, entered) = stress(lock.clone(), roles);
-    assert!(entered > 0, "the stress test never got the lock");
-    assert_eq!(violations, 0, "mutual exclusion violated");
-    assert_eq!(panicked, 0, "a worker panicked inside the rwlock");
-    assert_eq!(hung, 0, "a worker never came back from write()");
-    // every guard is dropped now: the lock must be free
-    assert!(
-        !matches!(lock.try_write(), Err(TryLockError::WouldBlock)),
-        "try_write() is WouldBlock although every guard was dropped"
-    );
-}
-
-fn nthreads() -> usize {
-    env_usize("F23_STRESS_THREADS", 8).max(2)
-}
-
-/// N threads hammer `try_write` on a poisoned lock.
-#[test]
-fn b_poisoned_try_write_is_exclusive() {
-    let roles = vec![Role::TryWrite; nthreads()];
-    check(poisoned(()), &roles);
-}
-
-/// writers via `try_write`, readers via `try_read` (needs fix A to be
-/// meaningful: on the unfixed tree the readers run into defect A first).
-#[test]
-fn b_poisoned_try_write_vs_try_read() {
-    let n = nthreads();
-    let mut roles = vec![Role::TryWrite; n / 2];
-    roles.extend(vec![Role::TryRead; n - n / 2]);
-    check(poisoned(()), &roles);
-}
-
-/// blocking `write()` goes through `lock()`, which maps the bogus Poisoned to
-/// `Err(ParkError::Timeout)`, which `write()` ignores.
-#[test]
-fn b_poisoned_write_vs_try_write() {
-    let n = nthreads();
-    let mut roles = vec![Role::TryWrite; n - 1];
-    roles.push(Role::Write);
-    check(poisoned(()), &roles);
-}
-
-/// control: the same stress on a healthy lock never fails, before or after
-/// the fix (the lost-CAS path returns WouldBlock when not poisoned).
-#[test]
-fn b_control_not_poisoned() {
-    let roles = vec![Role::TryWrite; nthreads()];
-    check(Arc::new(RwLock::new(())), &roles);
+    assert!(ok, "all guards are dropped but try_write() keeps failing: the read lock was leaked");
 }
